@@ -13,7 +13,7 @@ from report import RuleResult
 
 TABLE = os.path.join(os.path.dirname(os.path.dirname(os.path.abspath(__file__))), "tables", "r21.toml")
 IGN = {"from", "from_re", "into", "clone", "deref", "deref_mut", "borrow", "as_ref", "to_owned", "branch", "from_residual", "into_iter", "next",
-       "index", "index_mut", "drop", "unwrap", "expect", "fmt", "new_display", "new_debug", "to_string"}
+       "drop", "unwrap", "expect", "fmt", "new_display", "new_debug", "to_string"}
 
 
 def signature(b):
